@@ -989,7 +989,13 @@ theorem j_opArrive (w : World) (s key : Nat) (hAc : Acct none w) (hJ : JAll w) :
           refine DRSame.trans ?_ (drsame_hostAssign _ s h)
           refine DRSame.trans ?_ (drsame_updLink _ s _)
           exact D1.trans (drsame_of_slot rfl)
-        exact j_runCon _ _ s A2 (j_of_drsame J0 D2 hA0)
+        split
+        · refine j_finish _ s false ?_
+          refine j_same (w := ({ (hostGet W s).2 with noteSent := false } : World).updAux s
+            fun a => { a with status := 405 }) rfl ?_
+          refine j_updAux _ _ _ (j_same rfl J1) ?_
+          intro a; exact ⟨rfl, Nat.le_refl _⟩
+        · exact j_runCon _ _ s A2 (j_of_drsame J0 D2 hA0)
 
 theorem j_opEvent (w : World) (s mask : Nat) (hAc : Acct none w) (hJ : JAll w) : JAll (opEvent w s mask) := by
   unfold opEvent; dsimp only
